@@ -24,8 +24,8 @@ func init() {
 				New: "\tif len(undefinedVariables) > 1 {\n\t\terr = SetInputUndefinedVariables(preparedInput, undefinedVariables)\n\t\tif err != nil {\n\t\t\treturn errors.WithStack(err)\n\t\t}\n\t}\n\tfetchInput := preparedInput.Bytes()\n\n\tif l.ctx.TracingOptions.Enable && res.fetchSkipped {"},
 			{Name: "undefined context variable no longer recorded", File: "v2/pkg/engine/resolve/inputtemplate.go", Rule: "C15-R2", Key: "renderSegments",
 				Old: "\t\t\t\tif undefined {\n\t\t\t\t\t*undefinedVariables = append(*undefinedVariables, segment.VariableSourcePath[0])\n\t\t\t\t}\n", New: "\t\t\t\t_ = undefined\n"},
-			{Name: "object literals no longer converted to JSON", File: astValueGo, Rule: "C15-R3", Key: "writeJSONValue",
-				Old: "\tcase ValueKindObject:\n\t\tbuf.WriteByte(literal.LBRACE_BYTE)", New: "\tcase ValueKindObject - 100:\n\t\tbuf.WriteByte(literal.LBRACE_BYTE)"},
+			{Name: "object literals no longer printed", File: astValueGo, Rule: "C15-R3", Key: "PrintValue",
+				Old: "\tcase ValueKindObject:\n\t\t_, err = w.Write(literal.LBRACE)", New: "\tcase ValueKindObject - 100:\n\t\t_, err = w.Write(literal.LBRACE)"},
 		},
 	}
 }
